@@ -1,6 +1,7 @@
 package main
 
 import (
+	"go/ast"
 	"fmt"
 	"go/token"
 	"go/types"
@@ -144,6 +145,25 @@ func (e *SpecEnv) ident(name string) Val {
 		for o := range e.cur.vars {
 			if o.Name() == "range_i" && (!e.scopePos.IsValid() || o.Pos() < e.scopePos) && (best == nil || o.Pos() > best.Pos()) {
 				best = o
+			}
+		}
+		// inside "for i := 0; i < len(s); i++" (the index-loop spelling of "for i := range s") range_i is that loop's
+		// counter, so a contract survives the change of spelling in either direction; the innermost enclosing loop wins
+		if c.fdecl != nil && e.scopePos.IsValid() {
+			var hit types.Object
+			var hitPos token.Pos
+			ast.Inspect(c.fdecl, func(nd ast.Node) bool {
+				if fs, ok := nd.(*ast.ForStmt); ok && fs.Pos() <= e.scopePos && e.scopePos <= fs.End() {
+					if io, _, isCount := c.countingLoop(fs); isCount {
+						hit, hitPos = io, fs.Pos() // Inspect visits outer loops first
+					}
+				}
+				return true
+			})
+			if hit != nil && (best == nil || hitPos > best.Pos()) {
+				if v, ok := e.cur.vars[hit]; ok {
+					return v
+				}
 			}
 		}
 		if best != nil {
